@@ -39,17 +39,18 @@ Proof. exact header_total. Qed.
 Print Assumptions C04_header_total.
 
 (* SliceReader path: for every leaf decoder satisfying the contract and every byte string (Go slice lengths
-   are < 2^63): a tree or an error, never Panic, never out of fuel len+1, ticks + alloc <= 2*len + 2 *)
+   are < 2^63): a tree or an error, never Panic, never out of fuel len+1, ticks + alloc <= 2*len + 29
+   (the constant covers the capped children listing of the size-mismatch error) *)
 Theorem C04_container_total_sr : forall ld, leaf_ok ld -> forall bs, small bs = true ->
   exists r s', box_sr ld bs = (r, s') /\ (r = Err \/ exists t, r = Ok t) /\
-               (tot (scost s') <= 2 * lenN bs + 2)%N.
+               (tot (scost s') <= 2 * lenN bs + 29)%N.
 Proof. exact container_total_sr. Qed.
 Print Assumptions C04_container_total_sr.
 
-(* io.Reader path: a tree, io.EOF or an error; ticks + alloc <= 6*len + 18 *)
+(* io.Reader path: a tree, io.EOF or an error; ticks + alloc <= 6*len + 29 *)
 Theorem C04_container_total_r : forall ld, leaf_ok ld -> forall bs, small bs = true ->
   exists r s', box_r ld bs = (r, s') /\ (r = Err \/ r = Ok BEof \/ exists t, r = Ok (BBox t)) /\
-               (tot (icost s') <= 6 * lenN bs + 18)%N.
+               (tot (icost s') <= 6 * lenN bs + 29)%N.
 Proof. exact container_total_r. Qed.
 Print Assumptions C04_container_total_r.
 
